@@ -34,6 +34,8 @@ type observation struct {
 	Running        bool
 	ClientStrict   bool
 	ConfigStrict   bool
+	CacheBytes     int  // http.cache.maxbytes as the HTTP engine of the running node holds it
+	CacheActive    bool // the caching transport is installed
 	Stopped        bool
 	ExitedMsg      string // cmd.Execute returned without fatal and without running
 	Exited         bool
@@ -92,6 +94,7 @@ func runChild(dir string, l launch) observation {
 			o.Refused, o.RefusalMsg, o.EverReachable, o.ListenerAtExit = true, ll.Msg, ll.EverReachable, ll.ListenerAtExit
 		case "running":
 			o.Running, o.ClientStrict, o.ConfigStrict = true, ll.ClientStrict, ll.ConfiguredStrict
+			o.CacheBytes, o.CacheActive = ll.CacheBytes, ll.CacheActive
 		case "stopped":
 			o.Stopped = true
 		case "exited":
